@@ -38,4 +38,13 @@ MUTATIONS = [
 		dict(file=MC, old='(__pyx_v_b <= __pyx_v_a)', new='((uint32_t)__pyx_v_b <= (uint32_t)__pyx_v_a)', count='any'),
 		dict(file=MC, old='(__pyx_v_a <= __pyx_v_b)', new='((uint32_t)__pyx_v_a <= (uint32_t)__pyx_v_b)', count='any')]),
 	M('c02-cast-narrow', ['C02', 'C15'], 'src/gambit/metric.py', '\t\treturn arr.view(new_dt)', "\t\treturn arr.astype('u4')", 'signed arrays converted to u4 (64-bit values truncated)'),
+	# ---- C05 ----------------------------------------------------------------------------------------
+	M('c05-indices-ignored-when-chunked', ['C05'], 'src/gambit/metric.py', 'idx = ref_slice if ref_indices is None else ref_indices[ref_slice]', 'idx = ref_slice if (ref_indices is None or chunksize == 2) else ref_indices[ref_slice]', 'ref_indices ignored for one particular chunk size'),
+	M('c05-no-mirror', ['C05'], 'src/gambit/metric.py', '\t\t\t\tout[cols, i] = out[i, cols]\n', '\t\t\t\tpass\n', 'pairwise lower triangle never written'),
+	M('c05-condensed-offset', ['C05'], 'src/gambit/metric.py', 'next_out += ncol\n', 'next_out += max(ncol - 1, 1)\n', 'condensed offsets overlap'),
+	M('c05-bounds-not-rebased', ['C05', 'C20'], 'src/gambit/sigs/base.py', 'bounds = self.bounds[start:(stop + 1)] - self.bounds[start]', 'bounds = self.bounds[start:(stop + 1)]', 'slice of a concatenated array keeps absolute bounds'),
+	M('c05-chunk-skip', ['C05'], 'src/gambit/util/misc.py', '\t\tstart = stop\n', '\t\tstart = stop if stop % 7 else stop + 1\n', 'chunk_slices skips an element now and then'),
+	M('c05-list-path-order', ['C05'], 'src/gambit/metric.py', '\t\t\tout[i] = _cmetric.jaccarddist(query, ref)', '\t\t\tout[i] = _cmetric.jaccarddist(ref, ref) if i == 11 else _cmetric.jaccarddist(query, ref)', 'list path wrong for the 12th reference only'),
+	M('c05-race-shared-begin-end', ['C05'], MC, ' firstprivate(__pyx_v_begin) lastprivate(__pyx_v_begin) firstprivate(__pyx_v_end) lastprivate(__pyx_v_end)', '', 'begin/end shared between OpenMP threads (data race)', count='any'),
+	M('c05-out-oob', ['C05'], MC, '*((__pyx_t_6gambit_7_cython_5types_SCORE_T *) ( /* dim=0 */ (__pyx_v_out.data + __pyx_t_4 * __pyx_v_out.strides[0]) )) = __pyx_t_7;', '*((__pyx_t_6gambit_7_cython_5types_SCORE_T *) ( /* dim=0 */ (__pyx_v_out.data + (__pyx_t_4 + (__pyx_t_4 == 16)) * __pyx_v_out.strides[0]) )) = __pyx_t_7;', 'cell 16 written to cell 17 (out of bounds when n == 17)', count='any'),
 ]
